@@ -367,6 +367,20 @@ func (r *Run) Finish(s Summary) int {
 		obs["distinct_"+k] = len(v)
 	}
 	cov["observed"] = obs
+	small := map[string][]string{}
+	for k, v := range r.sets {
+		if len(v) <= 60 {
+			var ms []string
+			for m := range v {
+				ms = append(ms, m)
+			}
+			sort.Strings(ms)
+			small[k] = ms
+		}
+	}
+	if len(small) > 0 {
+		cov["observed_sets"] = small
+	}
 	for k, v := range s.Extra {
 		cov[k] = v
 	}
